@@ -2,6 +2,7 @@
 from __future__ import annotations
 
 import json
+import os
 import time
 
 from . import common
@@ -46,7 +47,7 @@ def _merge(results, named, functions, crashes):
                 o["vcs"] += d["vcs"]
                 o["secs"] += d["secs"]
                 o["backends"] = sorted(set(o["backends"]) | set(d["backends"]))
-                rank = {"unsat": 0, "unknown": 1, "sat": 2}
+                rank = {"unsat": 0, "unknown": 1, "candidate": 2, "sat": 3}
                 if rank[d["status"]] > rank[o["status"]]:
                     o["status"], o["model"], o["detail"] = d["status"], d["model"], d["detail"]
             else:
@@ -149,6 +150,52 @@ def _c19_replay(name, rec):
     return {"suite": "generic_replay", "arg": {"op": op, "a": m.get("a"), "b": m.get("b"), "candidate": m.get("candidate", "")}}
 
 
+MARKER_TARGETS_C02 = ["dep_logic.utils:flatten_items", "dep_logic.markers.multi:MultiMarker.of", "dep_logic.markers.union:MarkerUnion.of",
+                      "dep_logic.utils:cnf", "dep_logic.utils:dnf", "dep_logic.utils:intersection", "dep_logic.utils:union"] + \
+    [f"{q}{op}" for q in ("dep_logic.markers.any:AnyMarker.", "dep_logic.markers.empty:EmptyMarker.", "dep_logic.markers.multi:MultiMarker.",
+                          "dep_logic.markers.union:MarkerUnion.") for op in ("__and__", "__or__")]
+MARKER_TARGETS_C12 = [f"{q}{m}" for q in ("dep_logic.markers.single:SingleMarker.", "dep_logic.markers.multi:MultiMarker.", "dep_logic.markers.union:MarkerUnion.",
+                                          "dep_logic.markers.any:AnyMarker.", "dep_logic.markers.empty:EmptyMarker.") for m in ("exclude", "only", "without_extras")]
+
+
+class MarkerPlan(Plan):
+    """C02 / C12: combinator layer over abstract markers (T-MARK) + the bounded sweep on the real objects"""
+    level = "other"
+    technique = "contracts and loop invariants on the marker combinators (flatten_items, of(), cnf/dnf same-kind branch, intersection, union, class operators, only/exclude) over abstract markers " \
+                "with ev/uses ghosts; definitional axioms generated from the real evaluate() bodies; z3 with deterministic instantiation; atom layer by the bounded stand-in"
+    trusted_base = ["A-ENGINE", "law.C13 (== implies same meaning/class/variables) as proved by the C13 check for atoms, bounded for compounds",
+                    "assumed contracts (guarded by the bounded part): the operator law on two single markers (atom layer: _merge_single_markers, EqualityMarkerUnion/InequalityMultiMarker operators), "
+                    "the distributive branch of cnf/dnf, union_simplify/intersect_simplify", "A-HASHSEED", "A-TERM"]
+    rtc = [("marker_algebra", None)]
+
+    def __init__(self, pid):
+        self.pid = pid
+        self.explanation = ("proof part: every path-VC of the listed combinator functions is discharged for all markers / all list lengths / all environments (pointwise ghosts); "
+                            "bounded part: the same meaning contract evaluated on real markers from the atom pool (covers the assumed atom layer). The two together are reported, the bounded part never counted as proved.")
+
+    def stages(self, tier, nproc):
+        named, functions, crashes, notes = {}, {}, [], []
+        tmo = 20000 if tier == "quick" else 120000
+        targets = MARKER_TARGETS_C02 + MARKER_TARGETS_C12
+        heavy = {"dep_logic.utils:flatten_items": 12, "dep_logic.markers.multi:MultiMarker.of": 6, "dep_logic.markers.union:MarkerUnion.of": 6, "dep_logic.utils:union": 3}
+        jobs = []
+        for t in targets:
+            n = heavy.get(t, 1)
+            for k in range(n):
+                jobs.append((f"{t}[{k}/{n}]", "marker_function", {"name": t, "timeout_ms": tmo, "vc_slice": (k, n) if n > 1 else None}))
+        jobs.sort(key=lambda j: -heavy.get(j[2]["name"], 1))
+        _merge(common.run_jobs(jobs, nproc), named, functions, crashes)
+        return named, functions, crashes, notes
+
+    def own(self, name):
+        if self.pid == "C12":
+            return "C12." in name or any(t + "#" in name for t in MARKER_TARGETS_C12)
+        return not ("C12." in name) and any(name.startswith(t + "#") for t in MARKER_TARGETS_C02)
+
+    def own_rtc(self, check):
+        return check.startswith(self.pid + ".")
+
+
 class RtcPlan(Plan):
     """bounded stand-in only: run-time contracts on the real functions (labelled bounded, never counted as proved)"""
     level = "exploration"
@@ -179,6 +226,8 @@ def get_plan(pid):
                         rtc=["generic_spec"], replay=_c19_replay,
                         technique="contracts on GenericSpecifier.__and__/__or__/__invert__/__contains__/__post_init__ and Empty/Any.__contains__; VCs from the real AST over SMT strings (z3 seq, cvc5 fallback)",
                         trusted_base=["A-ENGINE", "A-STDLIB: Python `s in t` on str is substring containment, str ordering is code-point lexicographic (= SMT-LIB str.<)", "A-TERM"])
+    if pid in ("C02", "C12"):
+        return MarkerPlan(pid)
     if pid == "C08":
         return JobsPlan("C08", [(f"tags_python.{k}", "tags_python", {"chunk": (k, 16)}) for k in range(16)], rtc=["tags_python"],
                         replay=lambda name, rec: ({"suite": "tags_python", "arg": rec["model"]} if (rec.get("model") or {}).get("python_tag") else None),
@@ -227,11 +276,22 @@ def get_plan(pid):
 def run_property(pid, tier, seed, nproc):
     t0 = time.time()
     plan = get_plan(pid)
-    named, functions, crashes, notes = plan.stages(tier, nproc)
-    rtc_results = common.run_rtc_many([(s, tier, seed, arg) for s, arg in plan.rtc], nproc)
+    from concurrent.futures import ThreadPoolExecutor
+    with ThreadPoolExecutor(max_workers=1) as pool:       # the bounded part runs beside the proof jobs
+        fut = pool.submit(common.run_rtc_many, [(s, tier, seed, arg) for s, arg in plan.rtc], nproc)
+        named, functions, crashes, notes = plan.stages(tier, nproc)
+        rtc_results = fut.result()
     findings = common.load_findings()
     violations, known, undecided = [], [], []
 
+    # candidates (counter-models of the instantiated problem, not confirmed by the quantified solver): a failed obligation only if
+    # the obligation is recorded as discharged on the reference tree, otherwise undecided
+    baseline = common.load_baseline(pid)
+    for k, d in named.items():
+        if d["status"] == "candidate":
+            d["status"] = "sat" if k in baseline else "unknown"
+            d["detail"] = {"note": "refuted after instantiation (not confirmed by the quantified solver)" + ("; discharged on the reference tree" if k in baseline else ""),
+                           **(d["detail"] if isinstance(d.get("detail"), dict) else {})}
     own = {k: d for k, d in named.items() if plan.own(k)}
     foreign_bad = [k for k, d in named.items() if not plan.own(k) and d["status"] != "unsat" and k not in getattr(plan, "helper_obligations", ())]
     for k, d in sorted(own.items()):
@@ -309,6 +369,8 @@ def run_property(pid, tier, seed, nproc):
         "rule": "named proof obligations (each = all path-VCs of one contract clause) plus the bounded parts listed separately",
         "explanation": getattr(plan, "explanation", plan.technique),
     }
+    if os.environ.get("VERIF_WRITE_BASELINE"):
+        common.write_baseline(pid, sorted(k for k, d in named.items() if d["status"] == "unsat"))
     wall = time.time() - t0
     common.write_evidence(pid, tier, seed, plan.level, coverage, common.ENGINE_ASSUMPTIONS + plan.assumptions, wall, len(reported))
 
